@@ -2,7 +2,7 @@
    Only statements here; proofs are in Proofs/Crc*.v, Proofs/Frames*.v, Bridge/Crc.v. *)
 From Coq Require Import ZArith List Bool.
 From NV Require Import Base.Result Base.Bytes Base.PyPrims Model.Crc Model.Frames Gen.Crc
-  Proofs.Crc Proofs.CrcCheck Proofs.Frames Proofs.Frames2 Bridge.Crc Gen.FramesK Bridge.FramesK.
+  Proofs.Crc Proofs.CrcCheck Proofs.Frames Proofs.Frames2 Bridge.Crc Gen.FramesK Bridge.FramesK Bridge.FramesP.
 Import ListNotations.
 Open Scope Z_scope.
 
@@ -56,6 +56,12 @@ Print Assumptions C14_bridge_acr122_build.
 Theorem C14_bridge_rcs380_build : forall data, gen_rcs380_build data = rcs380_build data.
 Proof. exact bridge_rcs380_build. Qed.
 Print Assumptions C14_bridge_rcs380_build.
+
+(* the response validation of Chipset.command, translated statement by statement on this run, is the model
+   function all the parse theorems below are about *)
+Theorem C14_bridge_pn53x_parse : forall cmd frame, bytes_ok frame -> gen_pn53x_parse cmd frame = pn53x_parse cmd frame.
+Proof. exact bridge_pn53x_parse. Qed.
+Print Assumptions C14_bridge_pn53x_parse.
 
 (* --- PN53x command frames are well formed for every payload length (normal and extended) --- *)
 Theorem C14_pn53x_build_ok : forall cmd data, len data <= 65533 ->
